@@ -18,7 +18,6 @@ theorem keysNode_cases (g : GetObj) (skip : List Bytes) (hnd : ∀ p : Bytes, g 
   | file n =>
     left
     rw [keysNode_file] at hk
-    split at hk; · simp at hk
     split at hk
     · simp at hk; exact ⟨rfl, hk⟩
     · simp at hk
